@@ -1,4 +1,5 @@
 import LokyModel.Lemmas.ExecTerm
+import LokyModel.Lemmas.ExecStickyKill
 import LokyModel.Props.C02
 /-!
 # C06 — forced shutdown is prompt, total and explicit (executor protocol)
@@ -21,6 +22,45 @@ theorem C06_shutdown_sets_flags (s s' : St) (k : Nat) (w : Bool) (hpc : s.upc k 
   split at hs
   · cases hs; simp [setU]
   · cases hs
+
+/-- `shutdown(wait, kill_workers)` in general: the request is OR-ed into the flag
+    (`self.kill_workers = self.kill_workers or kill_workers`), it is not overwritten: a later
+    `shutdown(kill_workers=False)` — e.g. the one `__exit__` or a second caller issues — does not withdraw a forced
+    shutdown that the manager thread has not acted upon yet. -/
+theorem C06_shutdown_ors_kill_request (s s' : St) (k : Nat) (w kl : Bool) (hpc : s.upc k = .sdAcq1 w kl)
+    (hs : stepU s k .ok = some s') : s'.shutdownFlag = true ∧ s'.killFlag = (s.killFlag || kl) := by
+  unfold stepU at hs; simp only [hpc, acq_map] at hs
+  split at hs
+  · cases hs; simp [setU]
+  · cases hs
+
+/-- **The kill request is sticky**: once `kill_workers` is recorded it stays recorded along every step of every actor,
+    every variant (time-outs, failed try-locks, crashes) — in particular across any later `shutdown(kill_workers=False)`,
+    garbage collection of the executor, interpreter exit. -/
+theorem C06_kill_request_is_sticky {s s' : St} {a : Actor} {v : Variant} (hs : step s a v = some s')
+    (hk : s.killFlag = true) : s'.killFlag = true :=
+  stickyKill_step hs hk
+
+/-- **A kill request issued at any time before the manager reads the flag is seen by the manager**: from a reachable
+    state in which the request is recorded, every state of every continuation of the run still has it recorded … -/
+theorem C06_kill_request_never_lost (cfg : Cfg) (s : St) (_h : Reachable cfg s) (hk : s.killFlag = true) :
+    ∀ (sched : List (Actor × Variant)) (s' : St), run s sched = some s' → s'.killFlag = true :=
+  fun sched s' hr => stickyKill_run sched s s' hr hk
+
+/-- … so that whenever, later in the run, the manager thread leaves the lock section of `flag_executor_shutting_down`,
+    it takes the kill path: it fails every unfinished future with the shutdown error and starts the kill loop. -/
+theorem C06_kill_request_seen_by_manager (cfg : Cfg) (s : St) (_h : Reachable cfg s) (hk : s.killFlag = true)
+    (sched : List (Actor × Variant)) (s' s'' : St) (hr : run s sched = some s') (hm : s'.mpc = .flagRel)
+    (h1 : step s' .M .ok = some s'') :
+    s'' = mKillNext (failAll { s' with shut := s'.shut + 1, oShut := none, pending := [] } s'.pending .excShutdown) := by
+  have hk' : s'.killFlag = true := stickyKill_run sched s s' hr hk
+  have hs : stepM s' .ok = some s'' := h1
+  unfold stepM at hs
+  rw [hm] at hs
+  simp at hs
+  rw [← hs]
+  unfold mAfterFlag
+  exact if_pos hk'
 
 /-- The manager's reaction, part 1: every unfinished future that is not cancelled fails with
     `ShutdownExecutorError`; nothing stays pending; the kill loop starts. -/
@@ -113,6 +153,38 @@ example : ∃ s', mRun 4 (mKillNext { (init { maxWorkers := 2, timeout := false,
     = some s' ∧ s'.mpc = .jAcq1 ∧ s'.procDict = [] :=
   ⟨_, rfl, rfl, rfl⟩
 
+/-! non-vacuity of the sticky kill request: `shutdown(wait=False, kill_workers=True)` followed by
+    `shutdown(wait=False, kill_workers=False)` (what leaving a `with` block, or a second owner, does) before the manager
+    thread has looked at the flag -/
+
+/-- one worker, one task; a forced shutdown, then a plain one -/
+def cfgKillThenPlain : Cfg :=
+  { maxWorkers := 1, timeout := false, tasks := [{}],
+    scripts := [[.create, .submit 0, .shutdown false true, .shutdown false false]] }
+
+/-- the thread runs its whole script (23 steps) before the manager thread gets to run; the manager then finds the
+    shutdown flag and enters `flag_executor_shutting_down` -/
+def schedKillThenPlain : List (Actor × Variant) :=
+  List.replicate 23 (.U 0, .ok) ++ List.replicate 10 (.M, .ok) ++ [(.M, .fail), (.M, .ok)]
+
+/-- the manager is about to read the flag, both `shutdown` calls have returned, the task is unfinished — and the kill
+    request of the FIRST call is still there -/
+theorem C06_witness_kill_then_plain :
+    (run (init cfgKillThenPlain) schedKillThenPlain).map
+        (fun s => ((s.mpc, s.upc 0, s.shutdownFlag, s.killFlag), (s.futs.map Fut.done, s.pending)))
+      = some ((.flagRel, .done, true, true), ([false], [0])) := by decide +kernel
+
+/-- … the manager's next step fails the future with the shutdown error and starts the kill loop … -/
+theorem C06_witness_kill_then_plain_seen :
+    (run (init cfgKillThenPlain) (schedKillThenPlain ++ [(.M, .ok)])).map (fun s => (s.mpc, s.futs, s.pending))
+      = some (.kill 100, [.excShutdown], []) := by decide +kernel
+
+/-- … and the run ends with the worker killed, manager and feeder threads gone. -/
+theorem C06_witness_kill_then_plain_ends :
+    (run (init cfgKillThenPlain)
+        (schedKillThenPlain ++ List.replicate 9 (.M, .ok) ++ List.replicate 4 (.F, .ok))).map
+        (fun s => (s.mpc, s.fpc, s.w 100, s.futs))
+      = some (.done, .done, .dead, [.excShutdown]) := by decide +kernel
 
 /-- **Total**: from the moment the manager starts killing workers, every future of the executor is resolved
     (the unfinished ones with `ShutdownExecutorError`, `C06_unfinished_get_shutdown_error`) and none of them
